@@ -10,6 +10,15 @@ import vlib, histlib
 BUILD_DIR = os.path.join(vlib.BUILD, "hist")
 
 
+def known_listed(pid):
+    """open findings of a property: KNOWN_FINDINGS.json plus (testing hook, as in c05.py) a proposed list named by VERIF_KNOWN_EXTRA"""
+    entries = list(vlib.known_findings(pid))
+    extra = os.environ.get("VERIF_KNOWN_EXTRA")
+    if extra:
+        entries += [e for e in json.load(open(extra))["findings"] if e.get("property") == pid and e.get("status", "open") == "open"]
+    return entries
+
+
 def _mk(case):
     c = dict(case)
     os.makedirs(BUILD_DIR, exist_ok=True)
@@ -63,6 +72,8 @@ def run(ctx, cases, pid, tags=None, known=(), unit_modules=(), skip_data=False, 
     known: list of dict(id, case, match) - a committed known finding is re-confirmed by replaying `case`
     and checking that some finding's text contains `match`."""
     H = ctx.harness
+    histlib.KNOWN_CLASSES = {e["id"] for e in known_listed("C03")} & {histlib.DENSE_LINKS}
+    histlib.SKIPPED["dense_groups"] = 0
     results = vlib.run_harness_parallel(H, "hist", [_mk(c) for c in cases])
     viol = []
     opmix, outcome = collections.Counter(), collections.Counter()
@@ -106,9 +117,13 @@ def run(ctx, cases, pid, tags=None, known=(), unit_modules=(), skip_data=False, 
                          replay_hint="python3 tools/check.py %s --replay <this file>" % pid))
     # known findings: re-confirm on the implementation
     known_lines = []
-    listed = {k["id"]: k for k in vlib.known_findings(pid)}
+    listed = {k["id"]: k for k in known_listed(pid)}
+    skipped_dense = histlib.SKIPPED["dense_groups"]
+    saved_classes = histlib.KNOWN_CLASSES
     for k in known:
+        histlib.KNOWN_CLASSES = set()       # witnesses are judged by the full specification
         _, fs = judge(H, k["case"])
+        histlib.KNOWN_CLASSES = saved_classes
         hit = [f for f in fs if k["match"] in f.what]
         if k["id"] in listed:
             if hit:
@@ -142,6 +157,7 @@ def run(ctx, cases, pid, tags=None, known=(), unit_modules=(), skip_data=False, 
                     "non-trivial when at least two mutating calls succeeded; distinct = distinct operation lists. " + rule_extra,
                samples=[dict(sb=c["sb"], ops=[short_op(o) for o in c["ops"][:12]], nops=len(c["ops"])) for c in cases[:2]],
                op_mix=dict(opmix), outcomes=dict(outcome), histories_failing=nbad,
+               known_classes_left_out=sorted(histlib.KNOWN_CLASSES), dense_group_children_not_compared=skipped_dense,
                unit_ties=unit_cov, side_obligations=side, side_discharged=side_ok,
                programs=len(cases), disagreements_checked=len(cases))
     return dict(violations=viol, known=known_lines, coverage=cov)
@@ -150,6 +166,7 @@ def run(ctx, cases, pid, tags=None, known=(), unit_modules=(), skip_data=False, 
 def replay(ctx, path):
     rp = json.load(open(path))
     case = rp["detail"].get("failing_input") or rp["detail"].get("case")
+    histlib.KNOWN_CLASSES = {e["id"] for e in known_listed("C03")} & {histlib.DENSE_LINKS}
     r, fs = judge(ctx.harness, case)
     print(json.dumps(dict(results=r.get("results"), findings=[f.what for f in fs]), indent=1)[:6000])
     return fs
